@@ -129,7 +129,7 @@ def san_env():
     e = dict(os.environ)
     e["ASAN_OPTIONS"] = ("detect_leaks=1:exitcode=86:abort_on_error=0:allocator_may_return_null=1:"
                          "detect_stack_use_after_return=0:handle_sigfpe=1:symbolize=1:max_malloc_fill_size=4096:"
-                         "malloc_fill_byte=190")
+                         "malloc_fill_byte=190:malloc_context_size=5:quarantine_size_mb=32")
     e["UBSAN_OPTIONS"] = "print_stacktrace=1:halt_on_error=1:exitcode=87"
     e["TSAN_OPTIONS"] = "exitcode=88:halt_on_error=1:second_deadlock_stack=1"
     e["LSAN_OPTIONS"] = "exitcode=89"
